@@ -2,5 +2,5 @@
    The output goes to ocaml/C18/_build/ (git-ignored; the directory is kept by ocaml/C18/_build/.keep
    and (re)created by checks/c18.py before this file is compiled). *)
 From Coq Require Import ExtrOcamlBasic.
-From C18 Require Import Model_C18.
-Extraction "../ocaml/C18/_build/json_model.ml" m_parse m_stringify m_stringify_raw m_roundtrip tjsv_ok quote_json_string number_token.
+From C18 Require Import Model_C18 DeepModel_C18.
+Extraction "../ocaml/C18/_build/json_model.ml" m_parse m_stringify m_stringify_raw m_roundtrip tjsv_ok quote_json_string number_token m_stringify_id store_ok ival_ok.
